@@ -54,15 +54,19 @@ def gen_history(rng: random.Random) -> dict:
                 {'op': 'read', 'storage': storage, 'sid': sid}]
     for _ in range(rng.randint(3, 12)):
         kind = rng.choices(['read', 'mutate', 'restart', 'crash-read', 'read2'], [8, 3, 1.5, 0.7, 1.2])[0]
-        sqls = [s for s in used if STORAGES[s].startswith('sql')]
-        if kind == 'read2' and (not sqls or len(sids) < 2):
+        sqls = [s for s in used if STORAGES[s].startswith('sql')] or used
+        if kind == 'read2' and len(sids) < 2:
             kind = 'read'
         storage = rng.choice(used)
         if kind == 'read2':
             sa, sb = rng.sample(sids, 2)
-            ops.append({'op': 'read2', 'a': {'storage': rng.choice(sqls), 'sid': sa},
-                        'b': {'storage': rng.choice(sqls), 'sid': sb},
-                        'schedule': [rng.choice([0, 0, 1]) for _ in range(12)]})
+            if rng.random() < 0.4:  # two readers of ONE feed (any kind: no cross-feed ambiguity for the cache model)
+                same = rng.choice(used)
+                pair = (same, same)
+            else:
+                pair = (rng.choice(sqls), rng.choice(sqls))
+            ops.append({'op': 'read2', 'a': {'storage': pair[0], 'sid': sa}, 'b': {'storage': pair[1], 'sid': sb},
+                        'schedule': [rng.choice([0, 0, 0, 1]) for _ in range(rng.choice([12, 60, 200]))]})
         elif kind == 'read':
             ops.append({'op': 'read', 'storage': storage, 'sid': rng.choice(sids)})
         elif kind == 'crash-read':
@@ -458,6 +462,7 @@ def main(argv: list[str]) -> int:
         'known_finding_reads': {k[6:]: v for k, v in stats.items() if k.startswith('known:')},
         'fault_kinds_fired': {k[6:]: v for k, v in stats.items() if k.startswith('fault:')},
         'torn_cache_files': stats.get('torn-cache-files', 0),
+        'interleaved_reader_pairs': stats.get('fault:interleaved-readers', 0), 'reader_switches': stats.get('reader-switches', 0),
         'mutations': stats.get('mutations', 0), 'restarts': stats.get('restarts', 0),
         'incarnations': stats.get('incarnations', 0),
         'runs_per_hour': round(nruns / wall * 3600) if wall else 0,
